@@ -492,6 +492,125 @@ example : (∀ op ∈ [Op.setUseVars true, .update 0], op ≠ Op.setUseVars fals
       op ≠ Op.build true) := by
   decide
 
+/-! ## 2d. every call of a history on one object uses the factor in force NOW
+  (strengthening round, seed C07-10)
+
+  `QState.outs` = the values the `call`s of an operation list return (build / update / update from a
+  Variable / `use_variables` flips / calls in any order, any length, factors 0 and 1 included at any
+  moment: at construction, at an explicit `build`, at the first call).  `callFactors` = the property's
+  reading of the same list: at each call the last value written before it.  Nothing else about the
+  history — in particular not the factor the object had when it was built — enters. -/
+
+/-- exact reading, every form, every history: the k-th call returns
+    `surrogate + f_k (quantized − surrogate)` with `f_k` the last value written before it (or the
+    constructor constant) -/
+theorem C07_history_calls_interpolate (fm : Form) (s q : ℚ) (st : QState) (ops : List Op) :
+    QState.outs Rnd.exact fm s q st ops =
+      (callFactors id st.store.raw ops).map (fun f => s + f * (q - s)) := by
+  have h := outs_of_factor Rnd.exact fm s q (fun f => s + f * (q - s))
+    (fun st => outF_exact s q st fm) ops st (fun op _ => by cases op <;> simp [Op.WF, Rnd.exact])
+  have he : st.eff Rnd.exact = st.store.raw := by
+    cases hs : st.store <;> simp [QState.eff, Store.asF, Store.raw, Rnd.exact, hs]
+  rw [h, he]; rfl
+
+/-- float32 reading, STE form and quantized_linear's form, every rounding: the k-th call returns
+    what a quantizer holding float32(`f_k`) returns — bit for bit, whatever the object went through
+    before (which storage, built when and at which factor, how many calls) -/
+theorem C07_history_calls_float (rd : Rnd) (fm : Form) (hfm : fm ≠ .two false) (s q : ℚ)
+    (st : QState) (ops : List Op) (hwf : ∀ op ∈ ops, Op.WF rd op) :
+    QState.outs rd fm s q st ops =
+      (callFactors rd.r32 (st.eff rd) ops).map (fun f => fm.outF rd s q (.var f)) :=
+  outs_of_factor rd fm s q (fun f => fm.outF rd s q (.var f))
+    (fun st' => outF_asF rd s q st' fm hfm) ops st hwf
+
+/-- history independence: two objects (any class form other than the non-STE one, any initial
+    storage, any histories) whose calls see the same factor lists return the same values -/
+theorem C07_history_independent (rd : Rnd) (fm : Form) (hfm : fm ≠ .two false) (s q : ℚ)
+    (st1 st2 : QState) (ops1 ops2 : List Op)
+    (hwf1 : ∀ op ∈ ops1, Op.WF rd op) (hwf2 : ∀ op ∈ ops2, Op.WF rd op)
+    (h : callFactors rd.r32 (st1.eff rd) ops1 = callFactors rd.r32 (st2.eff rd) ops2) :
+    QState.outs rd fm s q st1 ops1 = QState.outs rd fm s q st2 ops2 := by
+  rw [C07_history_calls_float rd fm hfm s q st1 ops1 hwf1,
+    C07_history_calls_float rd fm hfm s q st2 ops2 hwf2, h]
+
+/-- a used object equals a fresh one: after ANY history the next call returns what a quantizer
+    freshly constructed with the constant `v` = the last value written returns -/
+theorem C07_history_equals_fresh (rd : Rnd) (fm : Form) (hfm : fm ≠ .two false) (s q v : ℚ)
+    (st : QState) (ops : List Op) (b u : Bool) (hwf : ∀ op ∈ ops, Op.WF rd op)
+    (hl : lastWrite ops = some v) :
+    fm.outF rd s q ((QState.run rd st (ops ++ [.call])).store) =
+      fm.outF rd s q ((QState.run rd ⟨.py v, b, u⟩ [.call]).store) := by
+  have hwf' : ∀ op ∈ ops ++ [Op.call], Op.WF rd op := by
+    intro op ho
+    rcases List.mem_append.mp ho with h | h
+    · exact hwf op h
+    · simp only [List.mem_singleton] at h; subst h; trivial
+  have h1 := storage_invariant rd (ops ++ [.call]) st hwf'
+  have hl' : lastWrite (ops ++ [Op.call]) = some v := by
+    have : ∀ l : List Op, lastWrite (l ++ [Op.call]) = lastWrite l := by
+      intro l; induction l with
+      | nil => rfl
+      | cons o l ih => rw [List.cons_append, lastWrite_cons, ih, ← lastWrite_cons]
+    rw [this, hl]
+  rw [hl'] at h1
+  have h2 := storage_invariant rd [.call] ⟨.py v, b, u⟩ (by intro op ho; simp at ho; subst ho; trivial)
+  simp only [lastWrite, QState.eff] at h2
+  rw [outF_asF rd s q _ fm hfm, outF_asF rd s q (QState.run rd ⟨.py v, b, u⟩ [.call]).store fm hfm]
+  simp only [QState.eff] at h1
+  rw [h1, h2]; rfl
+
+/-- the legitimate part of an "identity fast path": at a factor of exactly 0 the float32 evaluation
+    of every form already IS the surrogate bit for bit (python number or Variable) -/
+theorem C07_f0_float_is_surrogate (rd : Rnd) (h0 : rd.r32 0 = 0) (h1 : rd.r32 1 = 1)
+    (h64 : rd.r64 1 = 1) (s q : ℚ) (hs : rd.r32 s = s) (fm : Form) :
+    fm.outF rd s q (.py 0) = s ∧ fm.outF rd s q (.var 0) = s :=
+  ⟨outF_zero rd h0 h1 h64 s q hs fm _ rfl, outF_zero rd h0 h1 h64 s q hs fm _ rfl⟩
+
+/-- … so a shortcut decided AT CALL TIME from the factor as it is now changes no returned value,
+    over every history -/
+theorem C07_call_time_shortcut_sound (rd : Rnd) (h0 : rd.r32 0 = 0) (h1 : rd.r32 1 = 1)
+    (h64 : rd.r64 1 = 1) (s q : ℚ) (hs : rd.r32 s = s) (fm : Form) (st : QState) (ops : List Op) :
+    QState.outsShortcut rd fm s q st ops = QState.outs rd fm s q st ops :=
+  outsShortcut_eq rd fm s q (fun st' hz => outF_zero rd h0 h1 h64 s q hs fm st' hz) ops st
+
+example : Rnd.ieee.r32 0 = 0 ∧ Rnd.exact.r32 1 = 1 ∧ Rnd.exact.r64 1 = 1 := ⟨rfl, rfl, rfl⟩
+
+/-- … whereas the same decision taken ONCE, when the object is built, and cached (`Snap`, NOT the
+    code) breaks the property for every form, every input with `s ≠ q` and every later factor
+    `f ≠ 0`: built (first call) at the constant factor 0, then `update_qnoise_factor(f)`, the second
+    call still returns the surrogate while the code returns `s + f (q − s)`.  The twin decision
+    "constant factor 1 ⇒ return the quantized value" fails the same way after an update to 0. -/
+theorem C07_build_time_shortcut_counterexample (fm : Form) (s q f : ℚ) (hsq : s ≠ q) (hf : f ≠ 0)
+    (u : Bool) :
+    Snap.outs Rnd.exact fm s q Store.isConstZero s ⟨⟨.py 0, false, u⟩, false⟩
+        [.call, .update f, .call] = (if u then [s, s + f * (q - s)] else [s, s]) ∧
+    QState.outs Rnd.exact fm s q ⟨.py 0, false, u⟩ [.call, .update f, .call] = [s, s + f * (q - s)] ∧
+    s + f * (q - s) ≠ s ∧
+    Snap.outs Rnd.exact fm s q Store.isConstOne q ⟨⟨.py 1, false, false⟩, false⟩
+        [.call, .update 0, .call] = [q, q] ∧
+    QState.outs Rnd.exact fm s q ⟨.py 1, false, false⟩ [.call, .update 0, .call] = [q, s] := by
+  have hne : s + f * (q - s) ≠ s := by
+    intro h
+    have : f * (q - s) = 0 := by linarith
+    rcases mul_eq_zero.mp this with h | h
+    · exact hf h
+    · exact hsq (by linarith)
+  have e : ∀ st : Store, fm.outF ⟨id, id⟩ s q st = s + st.raw * (q - s) := by
+    intro st
+    have := outF_exact s q st fm
+    cases st <;> simpa [Rnd.exact, Store.asF, Store.raw] using this
+  have eq1 : s + (q - s) = q := by ring
+  refine ⟨?_, ?_, hne, ?_, ?_⟩
+  · cases u <;>
+      simp [Snap.outs, Snap.step, QState.runsBuild, QState.step, QState.call, QState.build, QState.update,
+        Store.isConstZero, Store.isVar, Store.raw, Store.asF, Rnd.exact, e]
+  · cases u <;>
+      simp [QState.outs, QState.step, QState.call, QState.build, QState.update, Store.asF, Store.raw,
+        Rnd.exact, e]
+  · simp [Snap.outs, Snap.step, QState.runsBuild, QState.step, QState.call, QState.build, QState.update,
+      Store.isConstOne, Store.isVar, Store.raw]
+  · simp [QState.outs, QState.step, QState.call, QState.build, QState.update, Store.raw, Rnd.exact, e, eq1]
+
 /-! ## 3. calculate_qnoise_factor -/
 
 /-- `r ↦ r^(k+1)` with exact arithmetic satisfies the hypotheses (exponent a positive natural) -/
